@@ -63,7 +63,7 @@ impl Run for Args {
             for (x, y) in codeword.iter().zip(codeword_buf.iter_mut()) {
                 *y = x.is_one().into();
             }
-            output.write_all(&codeword_buf)?;
+            output.write_all(&codeword_buf[..codeword.len()])?;
         }
         Ok(())
     }
